@@ -1,7 +1,8 @@
 """C29 — size-limited serializers fail exactly at the limit with out-of-memory."""
 import vlib, gen
 
-LEVEL = "proof"
+LEVEL = "other"   # part of the statement is proved, the rest is decided on the implementation (see Props file)
+FAMILY = "classic"
 
 
 def run(ctx):
@@ -10,6 +11,7 @@ def run(ctx):
                 "boundary plus random ones for larger trees) through node_to_bytes_limit (model vs implementation) and "
                 "node_to_bytes_backrefs_limit (implementation vs the statement); non-trivial = distinct (tree, limit) "
                 "with limit < len")
+    ctx.explanation = ("Part proof, part exploration. Theorems (Props/C29.v): node_to_bytes_limit t L = if |ser t| <= L then Ok (ser t) else OutOfMemory for every tree and limit; the LimitedWriter obeys the same law for any chunk sequence. The back-reference serializer's chunk sequence is not modelled: node_to_bytes_backrefs_limit is compared with its own unlimited output on the implementation for every limit 0..len+1 (all limits for outputs <= 60 bytes, boundary + random limits above).")
     ctx.proofs()
     if not ctx.build():
         return
